@@ -53,19 +53,20 @@ def grid(name, rng, n):
         elif name == "Pi2Lev":
             k = pick(ks)
             # (B*id)//B' == (b*id)//b'  = pointer width
-            B, b, Bp, bp, ids = pick([(2, 2, 2, 2, 4), (4, 2, 4, 2, 8), (3, 3, 3, 3, 4), (2, 4, 4, 8, 8), (64, 64, 64, 64, 8), (4, 4, 8, 8, 4)])
+            B, b, Bp, bp, ids = pick([(2, 2, 2, 2, 4), (4, 2, 4, 2, 8), (4, 4, 5, 5, 8), (3, 3, 3, 3, 4), (2, 4, 4, 8, 8), (64, 64, 64, 64, 8),
+                                      (4, 4, 8, 8, 4)])
             c.update(param_lambda=k, prf_f_output_length=k, param_B=B, param_b=b, param_B_prime=Bp, param_b_prime=bp,
                      param_identifier_size=ids)
         elif name == "CT14":
             k = pick(ks)
             c.update(param_k=k, param_k_prime=(ks[(i + 1) % 3] if fixed else rng.choice(ks)), param_l=pick([8, 16, 32]),
-                     param_identifier_size=pick([4, 8, 3]))
+                     param_identifier_size=pick([4, 16, 3, 8]))
         elif name == "ANSS16":
             k = pick(ks)
             c.update(param_lambda=pick([16, 32, 8]), param_k=k, param_k_prime=k, param_l=pick([8, 16, 32]),
-                     param_l_prime=pick([16, 8, 32]), param_identifier_size=pick([4, 8, 3]))
+                     param_l_prime=pick([8, 16, 32]), param_identifier_size=pick([4, 16, 3, 8]))
         elif name == "DP17":
-            c.update(param_lambda=pick(ks), param_L=pick([1, 2, 3, 1]), param_identifier_size=pick([8, 4, 5]),
+            c.update(param_lambda=pick(ks), param_L=pick([1, 2, 3, 1]), param_identifier_size=pick([8, 4, 16, 5]),
                      param_actual_storage_level_ratio=pick([0.2, 0.5, 1.0, 0.34]))
         out.append(c)
     return out
